@@ -4,6 +4,11 @@ manifest is valid at every commit)."""
 import json, os, sys
 
 CHECKS = {
+ "C06": ("exploration",
+         "bounded-exhaustive enumeration of JSON shape deviations, markup forests and nesting chains through pub.New and every Tangible method, in worker processes with a crash/hang watchdog",
+         "21 baseline documents x every field x 30 values (single deviations) and field pairs (8 values on 5 baselines quick; 30 values on all baselines thorough), top-level non-objects, HTML forests up to 3/4 nodes and gemtext/Markdown/plaintext sequences as post bodies, 11 nesting families x inner content at 13 depths up to 120 (quick) / every depth 1..120 at 4 widths (thorough): no panic (also none in a background goroutine), no nil item, every case finishes within the horizon.",
+         "Objects are passed as embedded values (no network); promptness is a 90 s per-case horizon plus a goroutine-count cap in the worker, deliberately loose (normal cases take milliseconds, the worst bounded case 3 s); a crashed worker is restarted without the crashing case.",
+         "DESIGN.md §3 C06"),
  "C02": ("model_checking",
          "enumeration of multi-host attack worlds (slot x presentation x attacker) x warming histories x cache sizes through the real FetchUnknown / pub.New; provenance judged from text every served object carries",
          "2 attackers x 10 reference slots x 17 presentations of a forged copy of h1's note or actor x 4 warming histories x cache sizes {128,1} (quick) / {128,1,2} (thorough); per case pub.New by URL (twice), as an embedded value with and without source, and client.FetchUnknown three times, with every reachable creator, recipient, parent, child, actor and target inspected: an item shown with an id on host H only ever shows text served by H, and FetchUnknown never returns an (object, id) pair whose stamp differs from the id's host.",
